@@ -107,11 +107,18 @@ func (d *detReader) Read(p []byte) (int, error) {
 	return n, err
 }
 
-var curSkew time.Duration // skew of the node whose code is executing
+var curSkew time.Duration  // skew of the node whose code is executing
+var curZone *time.Location // non-nil: the executing node's clock reports local time in this zone (same instants, other lexical form)
 
 func resetGlobals() {
 	curSkew = 0
-	saml.TimeNow = func() time.Time { return time.Now().Add(curSkew).UTC() }
+	curZone = nil
+	saml.TimeNow = func() time.Time {
+		if curZone != nil {
+			return time.Now().Add(curSkew).In(curZone)
+		}
+		return time.Now().Add(curSkew).UTC()
+	}
 	jwt.TimeFunc = func() time.Time { return time.Now().Add(curSkew) }
 	saml.MaxIssueDelay = 90 * time.Second
 	saml.MaxClockSkew = 180 * time.Second
@@ -135,6 +142,14 @@ func at(skew time.Duration, f func()) {
 	curSkew = skew
 	defer func() { curSkew = old }()
 	f()
+}
+
+// atZone is at() for a node whose clock reports zoned local time.
+func atZone(skew time.Duration, zone *time.Location, f func()) {
+	old := curZone
+	curZone = zone
+	defer func() { curZone = old }()
+	at(skew, f)
 }
 
 func advance(d time.Duration) {
